@@ -44,8 +44,16 @@ def run(R, cfg, over=None):
     H = base.get(cfg, **(over or {}))
     if H.BMC:
         from checks import bmc
-        return bmc.run(R, H, lambda st, act, ns, ts: D_guard(mask_obl(H), st, act, ns, ts) + reaction_obl(H)(st, act, ns, ts),
-                       reset_obl=lambda st, ts: reset_mask(H, st, ts))
+        # optional harness hooks (BMC only): `mask_obl_bmc(st, act, ns, ts)` replaces the direct comparison mask(S') == rule(S')
+        # by a kernel+bridge decomposition where the direct query on a deeply unrolled S' is out of reach (BinPack): bridge
+        # = "the emitted mask is the environment's own view function of S'" per step, kernel = "that view function equals
+        # the independent rule for EVERY raw state of the domain", discharged once in `kernels_c04(R)`
+        mo = getattr(H, "mask_obl_bmc", None) or mask_obl(H)
+        out = bmc.run(R, H, lambda st, act, ns, ts: D_guard(mo, st, act, ns, ts) + reaction_obl(H)(st, act, ns, ts),
+                      reset_obl=lambda st, ts: reset_mask(H, st, ts))
+        if hasattr(H, "kernels_c04"):
+            H.kernels_c04(R)
+        return out
     sp = D.build_step(R, H)
     D.prove_list(R, sp, mask_obl(H), guard=D.not_last)
     D.prove_list(R, sp, reaction_obl(H))
@@ -53,6 +61,9 @@ def run(R, cfg, over=None):
     R.reach("an illegal action exists", sp.A, bad.z())
     R.reach("a legal action exists", sp.A, (~bad).z())
     # reset mask
+    if not getattr(H, "RESET_INV", True):
+        R.note(f"{cfg}: reset not encodable (harness RESET_INV=False); reset mask not checked")
+        return
     ctx, key, st, ts = D.inv_reset(R, H)
     obs = reset_mask(H, st, ts)
     for n, v in obs:
